@@ -1,7 +1,7 @@
 (* Property C13 — wiring invariants hold for every size and seed.
    Random draws are universally quantified: "every seed" = every permutation / every in-range draw. *)
 From Coq Require Import String List Arith Bool Permutation.
-From TLX Require Import Model.Wiring Proofs.WiringFacts Proofs.SlicesFacts Proofs.UniqueCover.
+From TLX Require Import Model.Wiring Proofs.WiringFacts Proofs.SlicesFacts Proofs.UniqueCover Proofs.TreeCount.
 Import ListNotations.
 
 (* dense 'unique': no neuron wired to one input twice (a < b), all wires exist, no two neurons share a pair *)
@@ -90,6 +90,20 @@ Theorem C13_unique_cover_all_refuted : exists n m perm ps, n <= 2 * m /\ m <= n 
   unique_connections n m perm = Some ps /\ ~ uses ps (n - 1).
 Proof. exact unique_cover_all_refuted. Qed.
 
+(* one kernel of tree_depth d: 2^d first-level gates and d further levels that halve the width — 2^(d+1) - 1 gates on 2^(d+1)
+   window positions, for every depth *)
+Theorem C13_tree_count : forall d, gates_per_kernel d = 2 ^ (d + 1) - 1 /\ inputs_per_kernel d = 2 ^ (d + 1) /\
+  length (tree_indices d) = d.
+Proof. exact gates_per_kernel_count. Qed.
+
+Theorem C13_tree_levels_halve : forall d level, level < d ->
+  level_gates (nth level (tree_indices d) ([], [])) = 2 ^ (d - level - 1).
+Proof. exact tree_levels_halve. Qed.
+
+(* docs/guides/logic_gates.md ("depth n: 2^n - 1 operations") counts one level less than the parameter tree_depth builds *)
+Theorem C13_documented_count_refuted : exists d, 1 <= d /\ gates_per_kernel d <> 2 ^ d - 1.
+Proof. exact documented_count_refuted. Qed.
+
 Eval compute in "PA:C13_unique"%string. Print Assumptions C13_unique.
 Eval compute in "PA:C13_unique_rejects"%string. Print Assumptions C13_unique_rejects.
 Eval compute in "PA:C13_unique_slices"%string. Print Assumptions C13_unique_slices.
@@ -103,3 +117,6 @@ Eval compute in "PA:C13_tree"%string. Print Assumptions C13_tree.
 Eval compute in "PA:C13_unrank_arith"%string. Print Assumptions C13_unrank_arith.
 Eval compute in "PA:C13_unique_cover"%string. Print Assumptions C13_unique_cover.
 Eval compute in "PA:C13_unique_cover_all_refuted"%string. Print Assumptions C13_unique_cover_all_refuted.
+Eval compute in "PA:C13_tree_count"%string. Print Assumptions C13_tree_count.
+Eval compute in "PA:C13_tree_levels_halve"%string. Print Assumptions C13_tree_levels_halve.
+Eval compute in "PA:C13_documented_count_refuted"%string. Print Assumptions C13_documented_count_refuted.
